@@ -71,13 +71,20 @@ def run(ctx, rep, tier):
                 bad.append((f, x, u))
             elif fld in ("cellX_", "cellY_", "cellOrientation_"):
                 coord_sites.append((fld, f, x, u))
+        existing = {f.short for f in prog.funcs.values()}
+        vanished = [a for a in ok_list if a not in existing]
         if not bad:
             rep.holds("W3", rec["fields"][fld], "Circuit", "field %s" % fld,
                       "external writers: %s" % (sorted(seen_funcs) or "none"))
-        for f, x, u in bad:
-            rep.violation("W3", u.node, f, "write to Circuit::%s outside the allow-list" % fld,
-                          "%s (%s); allowed external writers: %s" % (u.why, u.kind, sorted(ok_list) or "none"),
-                          key="%s|writes Circuit::%s" % (f.short, fld))
+        elif vanished:
+            f, x, u = bad[0]
+            rep.unknown("W3", u.node, f, "Circuit::%s written in %s" % (fld, f.short),
+                        "allow-listed writer(s) %s no longer exist: renamed? rules/c03.json must be re-confirmed" % vanished)
+        else:
+            for f, x, u in bad:
+                rep.violation("W3", u.node, f, "write to Circuit::%s outside the allow-list" % fld,
+                              "%s (%s); allowed external writers: %s" % (u.why, u.kind, sorted(ok_list) or "none"),
+                              key="%s|writes Circuit::%s" % (f.short, fld))
         writer_funcs |= {f.short for f, _x, _u in ws if fld in ("cellX_", "cellY_", "cellOrientation_")}
         # allow-list entries that vanished are fine (fewer writers), but record them
         gone = [w for w in ok_list if w not in seen_funcs]
